@@ -28,11 +28,12 @@ type Ctx struct {
 
 // Property describes one property check.
 type Property struct {
-	ID      string
-	Explain string
-	Trusted []string
-	Assume  []string
-	Run     func(c *Ctx)
+	ID        string
+	Technique string
+	Explain   string
+	Trusted   []string
+	Assume    []string
+	Run       func(c *Ctx)
 	// Configs restricts the build configurations of the thorough tier
 	// (nil = all three).
 	Configs []string
